@@ -20,7 +20,13 @@ Inductive case :=
 | CTerm (p : tpayload) (obs : verdict)
 (* one-to-one constructors for (a,B), (b,A), (a,C); keys numbered in the byte order of their marshalled
    public keys; st = 1 anytype.onetoone, 2 any.onetoone; outputs as interned byte strings *)
-| COto (a b c st : N) (ab ba ac : out6).
+| COto (a b c st : N) (ab ba ac : out6)
+(* OVERLAPPING derivations by account a (several goroutines at once, one process).
+   kind 0: StoragePayloadForOneToOneSpaceWithType(a, B) -- six fields as in [out6];
+   kind 1: GenerateSharedKey(a, B, path) for the three one-to-one paths -- three public keys.
+   [contacts] = (key number b', what b' derives ALONE and sequentially for (b', A));
+   [obs] = (key number b, one DISTINCT result a obtained for contact b while other derivations were in flight). *)
+| CConc (kind a st : N) (contacts : list (N * list N)) (obs : list (N * list N)).
 
 Definition out6_eqs (x y : out6) : list bool :=
   let '(a1, a2, a3, a4, a5, a6) := x in
@@ -34,12 +40,34 @@ Fixpoint bools_eqb (x y : list bool) : bool :=
   | _, _ => false
   end.
 
+Fixpoint fields_eqs (x y : list N) : list bool :=
+  match x, y with
+  | [], [] => []
+  | a :: x', b :: y' => N.eqb a b :: fields_eqs x' y'
+  | _, _ => [false; true]          (* different number of fields: neither all-equal nor all-different *)
+  end.
+
 (* concrete instances of the Section variables for evaluation: an X25519 stand-in that is commutative and
    injective on unordered pairs, an injective replication-key function, the numeric order on key numbers *)
 Definition run_dh (a b : N) : N := (N.min a b) * 4294967296 + N.max a b.
 Definition run_rk (k : skey) : N :=
   match k with SKAtom n => 2 * n | SKShared sh _ _ p => 2 * (sh * 16 + p) + 1 end.
 Definition run_oto (a b st : N) : tpayload := one_to_one run_rk run_dh N.leb a b st.
+
+(* per (result, contact) pair: model equality pattern / observed equality pattern *)
+Definition conc_model (kind a st : N) (b b' : N) : list bool :=
+  if N.eqb kind 0 then tp_eqs (run_oto a b st) (run_oto b' a st)
+  else keys_eqs run_dh N.leb a b b' a.
+
+Definition conc_obs_pairs (contacts obs : list (N * list N)) : list (bool * list bool) :=
+  flat_map (fun o => map (fun c => (N.eqb (fst o) (fst c), fields_eqs (snd o) (snd c))) contacts) obs.
+
+Fixpoint pairs_eqb (x y : list (bool * list bool)) : bool :=
+  match x, y with
+  | [], [] => true
+  | (s, l) :: x', (s', l') :: y' => Bool.eqb s s' && bools_eqb l l' && pairs_eqb x' y'
+  | _, _ => false
+  end.
 
 Definition model_ok (c : case) : bool :=
   match c with
@@ -51,6 +79,11 @@ Definition model_ok (c : case) : bool :=
   | COto a b c st ab ba ac =>
       bools_eqb (tp_eqs (run_oto a b st) (run_oto b a st)) (out6_eqs ab ba)
       && bools_eqb (tp_eqs (run_oto a b st) (run_oto a c st)) (out6_eqs ab ac)
+  | CConc kind a st contacts obs =>
+      (* the model's derivation is a function of the call's own arguments under EVERY interleaving
+         (own_node_schedule_independent), so a result for b is compared with run_oto a b / shared_key a b *)
+      pairs_eqb (conc_pairs (conc_model kind a st) (map fst obs) (map fst contacts))
+                (conc_obs_pairs contacts obs)
   end.
 
 Definition spec_ok (c : case) : bool :=
@@ -59,6 +92,7 @@ Definition spec_ok (c : case) : bool :=
   | CHeader h idt aa sa pristine obs need => spec_C13_header N N.eqb h idt aa sa pristine obs need
   | CTerm p obs => true
   | COto a b c st ab ba ac => spec_C13_oto (N.eqb b c) (out6_eqs ab ba) (out6_eqs ab ac)
+  | CConc kind a st contacts obs => spec_C13_conc (conc_obs_pairs contacts obs)
   end.
 
 Fixpoint check_from (i : N) (l : list case) : list (N * N) :=
